@@ -1,6 +1,9 @@
 package nc
 
 import (
+	"fmt"
+	"go/token"
+	"sort"
 	"strings"
 
 	"golang.org/x/tools/go/ssa"
@@ -38,7 +41,7 @@ func (r *Run) c02BestFlag() {
 			guarded := false
 			for _, g := range Guards(st.Block()) {
 				gt := tm.Of(g.Cond)
-				if gt.Op == "bin" && gt.Name == "==" && g.True {
+				if gt.Op == "bin" && ((gt.Name == "==" && g.True) || (gt.Name == "!=" && !g.True)) {
 					a, b := gt.Args[0].String(), gt.Args[1].String()
 					if strings.HasSuffix(a, ".bestSpeciesId") != strings.HasSuffix(b, ".bestSpeciesId") {
 						guarded = true
@@ -98,4 +101,103 @@ func (r *Run) c02BestFlag() {
 		}
 	}
 	r.Floor("stores to bestSpeciesReproduced", n, 2)
+}
+
+// c02NewGenomes: every organism a species delivers wraps a genome made in this call (the result of duplicate or of
+// one of the crossovers), never the genome object of a parent: the old generation is destroyed afterwards, genome
+// ids are renumbered per organism, and two organisms sharing one genome end up with the same id.
+func (r *Run) c02NewGenomes() {
+	p := r.P
+	fn := p.Func(PkgG, "Species.reproduce")
+	newOrg := p.Func(PkgG, "NewOrganism")
+	makers := map[*ssa.Function]bool{}
+	for _, n := range []string{"Genome.duplicate", "Genome.mateMultipoint", "Genome.mateMultipointAvg", "Genome.mateSinglePoint"} {
+		makers[p.Func(PkgG, n)] = true
+	}
+	tm := NewTermer(fn)
+	calls := CallsTo(fn, newOrg)
+	for _, c := range calls {
+		arg := c.Common().Args[1]
+		var bad []string
+		for _, v := range NarrowAt(arg, c.Block()) {
+			v = stripPtr(v)
+			ok := false
+			if ex, isEx := v.(*ssa.Extract); isEx && ex.Index == 0 {
+				if call, isCall := ex.Tuple.(*ssa.Call); isCall && makers[call.Call.StaticCallee()] {
+					ok = true
+				}
+			}
+			if !ok {
+				bad = append(bad, tm.Of(v).String())
+			}
+		}
+		sort.Strings(bad)
+		r.Check(len(bad) == 0, "reproduce.new-genome", p.Pos(c.Pos()), "the baby's genome is the result of duplicate or of a crossover made in this call",
+			"a new organism is created around "+strings.Join(bad, ", ")+", which is not a genome produced by duplicate/mate* in this call: the baby shares its genome with an organism of the old generation (same object, same genome id after renumbering)")
+	}
+	r.Floor("NewOrganism calls in Species.reproduce", len(calls), 3)
+}
+
+// c02ErrorExits: "turning over an epoch succeeds without error" - the reproduction step of both executors fails only
+// when something it called failed (the error is handed on) or when the progeny count differs from PopSize. A freshly
+// made error under any other condition turns a legal state (e.g. a species left without quota by delta coding) into a
+// failed epoch.
+func (r *Run) c02ErrorExits() {
+	p := r.P
+	for _, name := range []string{"SequentialPopulationEpochExecutor.reproduce", "ParallelPopulationEpochExecutor.reproduce"} {
+		fn := p.Func(PkgG, name)
+		tm := NewTermer(fn)
+		n := 0
+		okAll := true
+		var why string
+		for _, b := range fn.Blocks {
+			ret, ok := b.Instrs[len(b.Instrs)-1].(*ssa.Return)
+			if !ok || len(ret.Results) == 0 {
+				continue
+			}
+			for _, v := range NarrowAt(ret.Results[len(ret.Results)-1], b) {
+				fresh := false
+				if mi, isMI := v.(*ssa.MakeInterface); isMI {
+					v = mi.X
+				}
+				if c, isC := v.(*ssa.Call); isC {
+					if nm, _ := calleeName(&c.Call); nonNilErrorMakers[nm] {
+						fresh = true
+					}
+				}
+				if !fresh {
+					continue
+				}
+				n++
+				sized := false
+				for _, g := range Guards(definingBlock(v, b)) {
+					// wrapping the error of something that failed: made under `err != nil`
+					if bo, isB := g.Cond.(*ssa.BinOp); isB && bo.Op == token.NEQ && g.True {
+						if k, isK := bo.Y.(*ssa.Const); isK && k.Value == nil && bo.X.Type().String() == "error" {
+							sized = true
+						}
+					}
+					gt := tm.Of(g.Cond)
+					if gt.Op == "bin" && (gt.Name == "!=" || gt.Name == "==") && strings.Contains(gt.String(), ".PopSize") && strings.Contains(gt.String(), "len(") {
+						if (gt.Name == "!=") == g.True {
+							sized = true
+						}
+					}
+				}
+				if !sized {
+					okAll = false
+					why = "an error made at " + p.Pos(v.Pos()) + " is returned under a condition other than `number of babies != PopSize`"
+				}
+			}
+		}
+		r.Check(okAll, "error-exits:"+name, p.Pos(fn.Pos()), fmt.Sprintf("%d freshly made error(s), all under the progeny-size check; every other failure hands on the error of a callee", n),
+			name+": "+why+": an epoch over a legal population state fails although no callee failed and the progeny count is right")
+	}
+}
+
+func definingBlock(v ssa.Value, dflt *ssa.BasicBlock) *ssa.BasicBlock {
+	if in, ok := v.(ssa.Instruction); ok && in.Block() != nil {
+		return in.Block()
+	}
+	return dflt
 }
